@@ -2,6 +2,7 @@ package props
 
 import (
 	"fmt"
+	"strings"
 
 	"verifharness/internal/core"
 	"verifharness/internal/mt"
@@ -198,7 +199,7 @@ func (p *c12) aliasRebind(rec *core.Recorder, r *core.Rand) {
 	A := func(v string) string { return "<a:" + v + ":da>" }
 	B := func(v string) string { return "<b:" + v + ":db>" }
 	var want string
-	v := r.Intn(18)
+	v := r.Intn(20)
 	L := func(v string) string { return "<l:" + v + ":dl>" }
 	local := "{% macro x(v, w = 'dl') %}<l:{{ v }}:{{ w }}>{% endmacro %}"
 	// a library whose macros call each other and themselves, by name and through _self
@@ -232,6 +233,23 @@ func (p *c12) aliasRebind(rec *core.Recorder, r *core.Rand) {
 		srcs["main"] = "{% for i in [1] %}{% include 'part' %}{% endfor %}"
 		srcs["part"] = "{% macro inner(v) %}<WRONG>{% endmacro %}{% import 'ls' as " + alias + " %}{{ " + alias + ".outer(" + a + ") }}|{{ " + alias + ".rec(3) }}|{{ " + alias + ".rec2(2) }}"
 		want = sib(a)
+	case 18:
+		// the value of a macro call used more than once: stored with set, passed on as an argument that is printed twice
+		srcs["lw"] = "{% macro wrap(inner, n = 2) %}[{{ inner }}|{{ inner }}]{% endmacro %}"
+		form := r.Intn(3)
+		call := []string{alias + ".x(" + a + ", 'k')", "x(" + a + ", 'k')", "_self.x(" + a + ", 'k')"}[form]
+		head := "{% import 'la' as " + alias + " %}{% import 'lw' as W %}"
+		wantX := "<a:" + a + ":k>"
+		if form != 0 {
+			head = local + "{% import 'lw' as W %}"
+			wantX = "<l:" + a + ":k>"
+		}
+		srcs["main"] = head + "{% set held = " + call + " %}{{ held }}|{{ held }}|{{ W.wrap(" + call + ") }}|{% for i in [1, 2] %}{{ held }}{% endfor %}"
+		want = wantX + "|" + wantX + "|[" + wantX + "|" + wantX + "]|" + wantX + wantX
+	case 19:
+		// a macro call under filters, concatenation, comparison and conditions has the value it prints
+		srcs["main"] = "{% import 'la' as " + alias + " %}" + local + "{{ " + alias + ".x(" + a + ")|upper }}|{{ x(" + b + ") ~ '!' }}|{{ _self.x(" + c + ")|length }}|{% if " + alias + ".x(1) == '<a:1:da>' %}eq{% else %}ne{% endif %}|{{ [x(2), x(3)]|join('+') }}"
+		want = strings.ToUpper(A(a)) + "|" + L(b) + "!|" + fmt.Sprint(len(L(c))) + "|eq|" + L("2") + "+" + L("3")
 	case 17:
 		// imports and macro definitions at the top of a template that extends a layout serve the blocks of that template
 		srcs["lay12"] = "[{% block c %}dflt{% endblock %}]"
